@@ -199,6 +199,9 @@ func (a *aggregate) add(cd *CheckDef, r *Result) {
 		a.notes[r.Status+": "+n]++
 	}
 	a.wallMS += r.WallMS
+	if r.Harness != "" {
+		a.deaths = append(a.deaths, fmt.Sprintf("scenario %d: %s", r.Idx, r.Harness))
+	}
 	for _, v := range r.Violations {
 		a.viols = append(a.viols, foundViolation{r.Idx, v, r.Sample})
 	}
@@ -384,6 +387,7 @@ func orchestrate() int {
 		}
 		knownOut = append(knownOut, map[string]interface{}{"id": k.ID, "class": k.Class, "still_violates": still, "scenarios_this_run": knownHit[k.ID]})
 	}
+	harnessTrouble = append(harnessTrouble, agg.deaths...)
 	if len(harnessTrouble) > 0 {
 		for _, h := range harnessTrouble {
 			fmt.Fprintln(os.Stderr, "HARNESS:", h)
